@@ -13,6 +13,7 @@ use arbitrary::Unstructured;
 use proptest::prelude::*;
 use proptest::test_runner::{Config, RngSeed, TestCaseError, TestError, TestRunner};
 use serde::de::DeserializeOwned;
+use serde::Deserialize as _;
 use serde::{Deserialize, Serialize};
 use serde_json::{json, Value};
 use std::collections::{BTreeMap, HashSet};
@@ -211,6 +212,13 @@ pub fn load_known(property: &str) -> Vec<KnownFinding> {
     all.into_iter().filter(|k| k.property == property).collect()
 }
 
+/// JSON parsing without serde_json's recursion limit (GenAST cases nest deeply)
+pub fn json_from_slice<T: DeserializeOwned>(b: &[u8]) -> Result<T, String> {
+    let mut de = serde_json::Deserializer::from_slice(b);
+    de.disable_recursion_limit();
+    T::deserialize(&mut de).map_err(|e| e.to_string())
+}
+
 pub fn hash64<T: Hash + ?Sized>(t: &T) -> u64 {
     struct Fnv(u64);
     impl Hasher for Fnv {
@@ -277,7 +285,7 @@ pub fn write_replay(id: &str, f: &Found, seed: u64, tier: Tier, sub: &str) -> Pa
 
 pub fn load_replay_case(path: &Path) -> Result<(String, Value), String> {
     let txt = std::fs::read_to_string(path).map_err(|e| format!("cannot read {}: {}", path.display(), e))?;
-    let v: Value = serde_json::from_str(&txt).map_err(|e| format!("{}: {}", path.display(), e))?;
+    let v: Value = json_from_slice(txt.as_bytes()).map_err(|e| format!("{}: {}", path.display(), e))?;
     let sig = v.get("signature").and_then(|s| s.as_str()).unwrap_or("").to_string();
     let case = v.get("case").cloned().ok_or_else(|| "replay file has no 'case'".to_string())?;
     Ok((sig, case))
@@ -823,7 +831,7 @@ fn eval_in_child<C: Check>(check: &C, cfg: &RunCfg, file: &Path, tag: &str) -> R
         ChildEnd::Died(c) => Err(ChildEndOrInfra::Died(c)),
         ChildEnd::Done => {
             let txt = std::fs::read_to_string(&out).map_err(|e| ChildEndOrInfra::Infra(format!("no result: {}", e)))?;
-            let v: Value = serde_json::from_str(&txt).map_err(|e| ChildEndOrInfra::Infra(e.to_string()))?;
+            let v: Value = json_from_slice(txt.as_bytes()).map_err(ChildEndOrInfra::Infra)?;
             if let Some(i) = v.get("infra") {
                 return Err(ChildEndOrInfra::Infra(i.to_string()));
             }
@@ -1228,7 +1236,7 @@ fn run_parent<C: Check>(check: &C, cfg: &RunCfg, plan: &Plan) -> i32 {
                 progressed = true;
                 let (k, _c, out, errp, mut skips) = running.remove(i);
                 match classify_death(st, &errp, &out.with_extension("timeout")) {
-                    ChildEnd::Done => match std::fs::read(&out).ok().and_then(|b| serde_json::from_slice::<ChunkResult>(&b).ok()) {
+                    ChildEnd::Done => match std::fs::read(&out).ok().and_then(|b| json_from_slice::<ChunkResult>(&b).ok()) {
                         Some(r) => {
                             stats.merge(r.stats);
                             if let Some(b) = r.harness_bug {
@@ -1247,7 +1255,17 @@ fn run_parent<C: Check>(check: &C, cfg: &RunCfg, plan: &Plan) -> i32 {
                                 }
                             }
                         }
-                        None => infra_errors.push(format!("chunk {}: result file missing or unreadable", k)),
+                        None => {
+                            let why = match std::fs::read(&out) {
+                                Ok(b) => match json_from_slice::<ChunkResult>(&b) {
+                                    Ok(_) => "ok?".to_string(),
+                                    Err(e) => format!("{} bytes, parse error: {}", b.len(), e),
+                                },
+                                Err(e) => format!("read error: {}", e),
+                            };
+                            let err = std::fs::read_to_string(&errp).unwrap_or_default();
+                            infra_errors.push(format!("chunk {}: result file missing or unreadable ({}); stderr: {}", k, why, crate::project::first_line(&err)));
+                        }
                     },
                     ChildEnd::Died(class) => {
                         // the input that killed the child
